@@ -478,66 +478,70 @@ func TestC03(t *testing.T) {
 			orig := make([]byte, n)
 			e.Rng.Read(orig)
 			for ri, r := range regionsOf(n) {
-				f := forms[1+(fi+ri)%3] // sha2-256 raw / dag-pb / blake2b
-				if ri%4 == 3 {
-					f = forms[4]
+				// every CIDv1 form in turn (sha2-256 raw/dag-pb, blake2b-256, sha2-512, truncated sha2-256, identity);
+				// the whole-file and every third region additionally with an identity-multihash CID (inlining builders)
+				fsel := []form{forms[1+(fi+ri)%6]}
+				if r.size > 0 && fsel[0].mhtype != mh.IDENTITY && ri%3 == 0 {
+					fsel = append(fsel, forms[6])
 				}
-				same := func(path string) (string, []byte) { return "file", orig }
-				runFile(rd, f, orig, r, same, "untouched", false, true)
-				runFile(rd, f, orig, r, same, "untouched-notallowed", false, false)
-				runFile(rd, f, orig, r, func(path string) (string, []byte) { os.Remove(path); return "gone", nil }, "deleted", true, true)
-				runFile(rd, f, orig, r, func(path string) (string, []byte) {
-					os.Remove(path)
-					os.Mkdir(path, 0o755)
-					return "dir", nil
-				}, "directory", true, true)
-				for p := 0; p < n; p++ { // overwrite one byte at every offset
-					if !keep(4) && p != r.off && p != r.off+r.size-1 && p != r.off-1 && p != r.off+r.size {
-						continue
-					}
-					p := p
+				for _, f := range fsel {
+					same := func(path string) (string, []byte) { return "file", orig }
+					runFile(rd, f, orig, r, same, "untouched", false, true)
+					runFile(rd, f, orig, r, same, "untouched-notallowed", false, false)
+					runFile(rd, f, orig, r, func(path string) (string, []byte) { os.Remove(path); return "gone", nil }, "deleted", true, true)
 					runFile(rd, f, orig, r, func(path string) (string, []byte) {
-						mut := append([]byte{}, orig...)
-						mut[p] ^= byte(1 << uint(e.Rng.Intn(8)))
-						os.WriteFile(path, mut, 0o644)
-						return "file", mut
-					}, fmt.Sprintf("overwrite@%d", p), true, true)
-				}
-				for l := 0; l <= n+2; l++ { // truncate / extend to every length
-					if l == n {
-						continue
-					}
-					if !keep(4) && l != r.off && l != r.off+r.size && l != r.off+r.size-1 && l != r.off-1 && l != r.off+1 && l != 0 {
-						continue
-					}
-					l := l
-					kind := fmt.Sprintf("truncate@%d", l)
-					if l > n {
-						kind = fmt.Sprintf("extend@%d", l-n)
-					}
-					runFile(rd, f, orig, r, func(path string) (string, []byte) {
-						var mut []byte
-						if l <= n {
-							mut = append([]byte{}, orig[:l]...)
-						} else {
-							mut = append(append([]byte{}, orig...), make([]byte, l-n)...)
+						os.Remove(path)
+						os.Mkdir(path, 0o755)
+						return "dir", nil
+					}, "directory", true, true)
+					for p := 0; p < n; p++ { // overwrite one byte at every offset
+						if !keep(4) && p != r.off && p != r.off+r.size-1 && p != r.off-1 && p != r.off+r.size {
+							continue
 						}
+						p := p
+						runFile(rd, f, orig, r, func(path string) (string, []byte) {
+							mut := append([]byte{}, orig...)
+							mut[p] ^= byte(1 << uint(e.Rng.Intn(8)))
+							os.WriteFile(path, mut, 0o644)
+							return "file", mut
+						}, fmt.Sprintf("overwrite@%d", p), true, true)
+					}
+					for l := 0; l <= n+2; l++ { // truncate / extend to every length
+						if l == n {
+							continue
+						}
+						if !keep(4) && l != r.off && l != r.off+r.size && l != r.off+r.size-1 && l != r.off-1 && l != r.off+1 && l != 0 {
+							continue
+						}
+						l := l
+						kind := fmt.Sprintf("truncate@%d", l)
+						if l > n {
+							kind = fmt.Sprintf("extend@%d", l-n)
+						}
+						runFile(rd, f, orig, r, func(path string) (string, []byte) {
+							var mut []byte
+							if l <= n {
+								mut = append([]byte{}, orig[:l]...)
+							} else {
+								mut = append(append([]byte{}, orig...), make([]byte, l-n)...)
+							}
+							os.WriteFile(path, mut, 0o644)
+							return "file", mut
+						}, kind, true, true)
+					}
+					// same length, different content; and the region's bytes moved by one
+					runFile(rd, f, orig, r, func(path string) (string, []byte) {
+						mut := make([]byte, n)
+						e.Rng.Read(mut)
 						os.WriteFile(path, mut, 0o644)
 						return "file", mut
-					}, kind, true, true)
+					}, "rewritten", n > 0, true)
+					runFile(rd, f, orig, r, func(path string) (string, []byte) {
+						mut := append([]byte{0x2a}, orig...)
+						os.WriteFile(path, mut, 0o644)
+						return "file", mut
+					}, "shifted", true, true)
 				}
-				// same length, different content; and the region's bytes moved by one
-				runFile(rd, f, orig, r, func(path string) (string, []byte) {
-					mut := make([]byte, n)
-					e.Rng.Read(mut)
-					os.WriteFile(path, mut, 0o644)
-					return "file", mut
-				}, "rewritten", n > 0, true)
-				runFile(rd, f, orig, r, func(path string) (string, []byte) {
-					mut := append([]byte{0x2a}, orig...)
-					os.WriteFile(path, mut, 0o644)
-					return "file", mut
-				}, "shifted", true, true)
 			}
 		}
 	}
@@ -625,22 +629,23 @@ func TestC03(t *testing.T) {
 	for ui, n := range []int{0, 1, 9, 33} {
 		data := make([]byte, n)
 		e.Rng.Read(data)
-		f := forms[1+ui%3]
-		for _, off := range []int{0, 5} {
-			runURL(f, data, off, 206, data, true, "intact-206", false)
-			runURL(f, data, off, 200, data, true, "intact-200", false)
-			runURL(f, data, off, 206, data, false, "notallowed", false)
-			runURL(f, data, off, 206, append(append([]byte{}, data...), 1, 2, 3), true, "longer-body", true)
-			for _, code := range []int{204, 301, 403, 404, 416, 500, 503} {
-				runURL(f, data, off, code, data, true, fmt.Sprintf("status@%d", code), true)
-			}
-			for p := 0; p < n; p++ {
-				mut := append([]byte{}, data...)
-				mut[p] ^= byte(1 << uint(e.Rng.Intn(8)))
-				runURL(f, data, off, 206, mut, true, fmt.Sprintf("flip@%d", p), true)
-			}
-			for l := 0; l < n; l++ {
-				runURL(f, data, off, 206, append([]byte{}, data[:l]...), true, fmt.Sprintf("truncate@%d", l), true)
+		for _, f := range []form{forms[1+ui%5], forms[6]} { // a real hash function in turn, and the identity multihash
+			for _, off := range []int{0, 5} {
+				runURL(f, data, off, 206, data, true, "intact-206", false)
+				runURL(f, data, off, 200, data, true, "intact-200", false)
+				runURL(f, data, off, 206, data, false, "notallowed", false)
+				runURL(f, data, off, 206, append(append([]byte{}, data...), 1, 2, 3), true, "longer-body", true)
+				for _, code := range []int{204, 301, 403, 404, 416, 500, 503} {
+					runURL(f, data, off, code, data, true, fmt.Sprintf("status@%d", code), true)
+				}
+				for p := 0; p < n; p++ {
+					mut := append([]byte{}, data...)
+					mut[p] ^= byte(1 << uint(e.Rng.Intn(8)))
+					runURL(f, data, off, 206, mut, true, fmt.Sprintf("flip@%d", p), true)
+				}
+				for l := 0; l < n; l++ {
+					runURL(f, data, off, 206, append([]byte{}, data[:l]...), true, fmt.Sprintf("truncate@%d", l), true)
+				}
 			}
 		}
 	}
@@ -717,7 +722,8 @@ func heldStreams(t *testing.T, e *vh.Env, st *vh.Stats, cs *vh.Cases, in *intern
 		name   string
 		lo, hi int
 	}{{"7-16", 7, 16}, {"100-120", 100, 120}, {"1000-1024", 1000, 1024}, {"4096", 4096, 4096}}
-	goodForms := []form{forms[1], forms[2], forms[3], forms[4]}
+	goodFormsAll := []form{forms[1], forms[2], forms[3], forms[4], forms[5], forms[6]}
+	goodForms := goodFormsAll[:5]
 
 	// ---- validating blockstore ----
 	for _, cl := range classes {
@@ -777,6 +783,10 @@ func heldStreams(t *testing.T, e *vh.Env, st *vh.Stats, cs *vh.Cases, in *intern
 	for _, rd := range []string{"RStd", "RMmap"} {
 		for _, cl := range classes {
 			dir := t.TempDir()
+			gf := goodForms
+			if cl.hi <= 120 {
+				gf = goodFormsAll // incl. the identity multihash, for inlinable sizes
+			}
 			var opts []filestore.Option
 			if rd == "RMmap" {
 				opts = append(opts, filestore.WithMMapReader())
@@ -818,7 +828,7 @@ func heldStreams(t *testing.T, e *vh.Env, st *vh.Stats, cs *vh.Cases, in *intern
 					t.Fatal(err)
 				}
 				for k, p := range ps {
-					f := goodForms[(fi+k)%len(goodForms)]
+					f := gf[(fi+k)%len(gf)]
 					data := append([]byte{}, content[p.off:p.off+p.size]...)
 					put(&hRef{f: f, c: mkCid(t, f, data), data: data, file: fi, off: p.off}, paths[fi])
 				}
@@ -829,7 +839,7 @@ func heldStreams(t *testing.T, e *vh.Env, st *vh.Stats, cs *vh.Cases, in *intern
 				e.Rng.Read(data)
 				pth := fmt.Sprintf("/%s/%s/u%d", rd, cl.name, u)
 				bodies[pth] = append([]byte{}, data...)
-				f := goodForms[u%len(goodForms)]
+				f := gf[(u+3)%len(gf)]
 				put(&hRef{f: f, c: mkCid(t, f, data), data: data, file: -1, off: 5, url: pth}, srv.URL+pth)
 			}
 
@@ -861,22 +871,24 @@ func heldStreams(t *testing.T, e *vh.Env, st *vh.Stats, cs *vh.Cases, in *intern
 				case x < 14: // damage the backing bytes of a reference, then read it (must fail) and others
 					if r.file >= 0 {
 						c := contents[r.file]
-						c[r.off+e.Rng.Intn(len(r.data))] ^= 0x01
-						os.WriteFile(paths[r.file], c, 0o644)
-					} else {
-						bodies[r.url][e.Rng.Intn(len(r.data))] ^= 0x01
+						if i := r.off + e.Rng.Intn(len(r.data)); i < len(c) { // the file may have been truncated inside this region
+							c[i] ^= 0x01
+							os.WriteFile(paths[r.file], c, 0o644)
+						}
+					} else if b := bodies[r.url]; len(b) > 0 { // the body may have been truncated
+						b[e.Rng.Intn(len(b))] ^= 0x01
 					}
 					r.damaged = true
 					log = append(log, "damage")
 					get(r, step)
 				case x < 15: // truncate a file inside its last region (or a body), read
 					if r.file >= 0 {
-						c := contents[r.file]
-						c = c[:len(c)-1-e.Rng.Intn(3)]
-						contents[r.file] = c
-						os.WriteFile(paths[r.file], c, 0o644)
-					} else {
-						b := bodies[r.url]
+						if c := contents[r.file]; len(c) > 4 {
+							c = c[:len(c)-1-e.Rng.Intn(3)]
+							contents[r.file] = c
+							os.WriteFile(paths[r.file], c, 0o644)
+						}
+					} else if b := bodies[r.url]; len(b) > 0 {
 						bodies[r.url] = b[:len(b)-1]
 					}
 					log = append(log, "truncate")
